@@ -21,16 +21,21 @@ structure Rec (F : Type) where
 section
 variable {F : Type} [LT F] [DecidableLT F]
 
-/-- strict (id, time) order used by `sort_values(by=[idvar, time])` -/
-def recLt (a b : Rec F) : Bool := a.id < b.id || (a.id == b.id && decide (a.time < b.time))
+/-- strict lexicographic order on (id, time) keys used by `sort_values(by=[idvar, time])` -/
+def keyLt (a b : Nat × F) : Bool := a.1 < b.1 || (a.1 == b.1 && decide (a.2 < b.2))
 
 /-- stable insertion: `x` goes before the first element that is not smaller than it -/
-def insertRec (x : Rec F) : List (Rec F) → List (Rec F)
+def insertBy {α : Type} (key : α → Nat × F) (x : α) : List α → List α
   | [] => [x]
-  | y :: ys => if recLt y x then y :: insertRec x ys else x :: y :: ys
+  | y :: ys => if keyLt (key y) (key x) then y :: insertBy key x ys else x :: y :: ys
 
-/-- stable sort by (id, time) -/
-def sortRecs (l : List (Rec F)) : List (Rec F) := l.foldr insertRec []
+/-- stable sort by key -/
+def sortBy {α : Type} (key : α → Nat × F) (l : List α) : List α := l.foldr (insertBy key) []
+
+def recKey (r : Rec F) : Nat × F := (r.id, r.time)
+
+/-- stable sort of the long table by (id, time) -/
+def sortRecs (l : List (Rec F)) : List (Rec F) := sortBy recKey l
 
 /-- `np.max(df[time])` -/
 def maxTime : List (Rec F) → Option F
@@ -124,19 +129,17 @@ def expandOne (x : Flat F) : List (LRec F) :=
     ⟨⟨x.lab, x.id, if tdiff < ((1 : Nat) : F) then x.T else ((t + 1 : Nat) : F),
       decide (tdiff ≤ ((1 : Nat) : F)) && x.event && (lastPt == some t)⟩, t⟩
 
-/-- `IPCW.__init__` with `flat_df=True` (subjects sorted by id; ids are unique in a flat table) -/
+def flatKey (x : Flat F) : Nat × F := (x.id, x.T)
+
+/-- `IPCW.__init__` with `flat_df=True`: subjects sorted by (id, T), expanded, indicator computed on the
+    expanded records with the maximum of `t_out` -/
 def prepFlat (l : List (Flat F)) : Except Err (List (LRec F) × List Bool) :=
-  let asRec : Flat F → Rec F := fun x => ⟨x.lab, x.id, x.T, x.event⟩
-  match maxTime (l.map asRec) with
+  match maxTime (l.map fun x => (⟨x.lab, x.id, x.T, x.event⟩ : Rec F)) with
   | none => .error .badInput
   | some m =>
     if eqF m ((1 : Nat) : F) then .error .badInput
     else
-      let srt := sortRecs (l.map asRec)
-      let byLab := fun (lab : Nat) => l.find? (·.lab == lab)
-      let ex := srt.flatMap fun r => match byLab r.lab with
-        | some x => expandOne x
-        | none => []
+      let ex := (sortBy flatKey l).flatMap expandOne
       match maxTime (ex.map (·.r)) with
       | none => .ok ([], [])
       | some mo => .ok (ex, uncens mo (ex.map (·.r)))
